@@ -30,6 +30,7 @@ From Coq Require Import List NArith ZArith Bool Arith Lia.
 From BBS Require Import Common.Sx Persist.PBL Persist.Syncer Persist.Crash Persist.CrashLts
   Persist.CrashEpochProofs Persist.CrashAllocProofs Persist.CrashOffsetsProofs Persist.CrashReuseProofs Persist.CrashSafe Index.RecordCodec Index.RecordCodecProofs Run.R02.
 From BBS Require Persist.CrashRepeat Persist.CrashRepeatShadow Persist.CrashRepeatRec Persist.CrashRepeatSafe.
+From BBS Require Run.R02Mon.
 Import ListNotations.
 Local Open Scope nat_scope.
 
@@ -387,3 +388,140 @@ Example ex2_new_record_not_yet :
   slot_get (m_index ex_m2) 4 None = Some (mkIrec 2 0 6 32 8 2002 0) /\
   resolve_ref (fst (restart (geom ex_g) (m_state ex_m2))) 0 2 0 2002 = None.
 Proof. split; vm_compute; reflexivity. Qed.
+
+(** ---- the monitor of Run/R02.v on the model (Run/R02Mon.v) ----
+    Run/R02.v has no "run02 inp" that generates an observation ([tie_life] validates the
+    implementation's own trace), so the usual "monitor silent on the model" is stated relationally.
+    [R02Mon.model_get_obs g ver H m key o]: [o] is an answer the crash model admits for [Get key] right
+    after the restart on the media [m] of history [H]: NOT_FOUND / UNAVAILABLE (location-map probing and
+    refresh are not modelled: always possible), or a record of the key resolves and the bytes of its
+    location are served — (1 key ver) when the location is exactly the allocation of ONE completed
+    upload (life j, index k) of that key owning every byte of it ([R02Mon.designates]; [ver j k] = the
+    version that upload carried), ANY payload otherwise (foreign bytes).  The monitor's [get_clauses]
+    accepts every such answer: the foreign case is refuted by [repeated_crash], the good case needs only
+    that the history's uploads are uploads the input attempted ([R02Mon.labelled]). *)
+Theorem probe_get_silent_on_model : forall g ver H m opss key o,
+  length (g_locs g) < 65536 -> NoDup (g_locs g) -> (0 < g_sector g)%Z ->
+  CrashRepeat.lives g H m -> R02Mon.labelled ver H opss ->
+  R02Mon.model_get_obs g ver H m key o -> get_clauses opss key o = [].
+Proof.
+  intros g ver H m opss key o G1 G2 G3.
+  exact (R02Mon.probe_get_silent_on_model g ver H m opss key o (conj G1 (conj G2 G3))).
+Qed.
+Print Assumptions probe_get_silent_on_model.
+
+Theorem probe_fm_silent_on_model : forall g m key o, R02Mon.model_fm_obs g m key o -> fm_clauses o = [].
+Proof. exact R02Mon.probe_fm_silent_on_model. Qed.
+Print Assumptions probe_fm_silent_on_model.
+
+(** the foreign disjunct of the model observation is empty (this IS [repeated_crash], at the sx level) *)
+Theorem model_get_obs_never_foreign : forall g ver H m key o,
+  length (g_locs g) < 65536 -> NoDup (g_locs g) -> (0 < g_sector g)%Z ->
+  CrashRepeat.lives g H m -> R02Mon.model_get_obs g ver H m key o ->
+  o = L [A 5%Z] \/ o = L [A 14%Z] \/
+  exists slot r i b j k, resolves g m slot r i /\ Z.of_N (r_key r) = key /\
+    nth_error (blocks (fst (restart (geom g) (m_state m)))) i = Some b /\
+    R02Mon.designates H (b_loc b) r j k /\ o = L [A 0%Z; L [A 1%Z; A key; A (ver j k)]].
+Proof.
+  intros g ver H m key o G1 G2 G3.
+  exact (R02Mon.model_get_obs_never_foreign g ver H m key o (conj G1 (conj G2 G3))).
+Qed.
+Print Assumptions model_get_obs_never_foreign.
+
+(** on a non-empty location "one completed upload with exactly this allocation owns every byte"
+    determines the upload ([towner] is a function), and it is the upload of the record's key *)
+Theorem owner_designates : forall g H m slot r i b j k,
+  length (g_locs g) < 65536 -> NoDup (g_locs g) -> (0 < g_sector g)%Z ->
+  CrashRepeat.lives g H m -> resolves g m slot r i ->
+  nth_error (blocks (fst (restart (geom g) (m_state m)))) i = Some b -> (0 < r_size r)%Z ->
+  R02Mon.owned_by H (b_loc b) r j k -> R02Mon.designates H (b_loc b) r j k.
+Proof.
+  intros g H m slot r i b j k G1 G2 G3.
+  exact (R02Mon.owner_designates g H m slot r i b j k (conj G1 (conj G2 G3))).
+Qed.
+Print Assumptions owner_designates.
+
+(** the probe list ((fm get) per key, key = position): the first component of [mon_life]'s clauses *)
+Theorem probe_silent_on_model : forall g ver H m opss probe,
+  length (g_locs g) < 65536 -> NoDup (g_locs g) -> (0 < g_sector g)%Z ->
+  CrashRepeat.lives g H m -> R02Mon.labelled ver H opss ->
+  R02Mon.indexed (R02Mon.model_probe_obs g ver H m) 0%Z probe ->
+  flat_map (fun kp => fm_clauses (sx_nth (snd kp) 0) ++ get_clauses opss (fst kp) (sx_nth (snd kp) 1))
+           (zip_index 0%Z probe) = [].
+Proof.
+  intros g ver H m opss probe G1 G2 G3.
+  exact (R02Mon.probe_silent_on_model g ver H m opss probe (conj G1 (conj G2 G3))).
+Qed.
+Print Assumptions probe_silent_on_model.
+
+(** [mon_life] decomposed: nothing is reported iff the node is not abnormal, its probe / final / opres
+    components (depth >= 1) are empty, and every experiment's subtree reports nothing *)
+Theorem mon_life_nil_iff : forall f d opss ing obs,
+  mon_life (S f) d opss ing obs = [] <->
+  abnormal obs = false /\
+  (d <> 0 -> R02Mon.probe_clauses (sx_nth ing 0 :: opss) obs = [] /\
+             R02Mon.final_clauses (sx_nth ing 0 :: opss) obs = [] /\
+             R02Mon.opres_clauses (sx_nth ing 0 :: opss) (sx_nth ing 0) obs = []) /\
+  Forall (fun eo => mon_life f (S d) (sx_nth ing 0 :: opss) (sx_nth (fst eo) 6) (sx_nth (snd eo) 4) = [])
+         (combine (sx_list (sx_nth ing 1)) (sx_list (sx_nth obs 6))).
+Proof. exact R02Mon.mon_life_nil_iff. Qed.
+Print Assumptions mon_life_nil_iff.
+
+(** PARTIAL (probe component only).  [R02Mon.model_tree g ver d H m opss ing obs]: the node at depth [d]
+    is not abnormal; at depth >= 1 its probe list consists of model observations for the history [H]
+    (d lives) and its media [m], and its [final] / [opres] components are ASSUMED clean (reads in a
+    running store after the restart: the crash model has no observation function for them); every
+    experiment is a crash of a model life [lf] on [m] — any reachable state, any log prefix, any loss
+    choice — whose uploads the node's op list attempted, and the subtree is a model tree for
+    [H ++ [lf]] on the media that crash leaves.  On such a tree the monitor reports nothing. *)
+Theorem mon02_silent_on_model_partial : forall g ver fuel ing obs,
+  length (g_locs g) < 65536 -> NoDup (g_locs g) -> (0 < g_sector g)%Z ->
+  R02Mon.model_tree g ver 0 [] medium_empty [] ing obs -> mon_life fuel 0 [] ing obs = [].
+Proof.
+  intros g ver fuel ing obs G1 G2 G3.
+  exact (R02Mon.mon02_silent_on_model_partial g ver (conj G1 (conj G2 G3)) fuel ing obs).
+Qed.
+Print Assumptions mon02_silent_on_model_partial.
+
+Theorem mon_life_silent_on_model_tree : forall g ver fuel d H m opss ing obs,
+  length (g_locs g) < 65536 -> NoDup (g_locs g) -> (0 < g_sector g)%Z ->
+  CrashRepeat.lives g H m -> R02Mon.labelled ver H opss -> R02Mon.model_tree g ver d H m opss ing obs ->
+  mon_life fuel d opss ing obs = [].
+Proof.
+  intros g ver fuel d H m opss ing obs G1 G2 G3.
+  exact (R02Mon.mon_life_silent_on_model_tree g ver (conj G1 (conj G2 G3)) fuel d H m opss ing obs).
+Qed.
+Print Assumptions mon_life_silent_on_model_tree.
+
+(** ---- non-vacuity of the model observations: the two-life history above.  Life 0 uploaded version 0 of
+    key 5, life 1 version 1 of key 6 ([ex_ver]).  After the second crash [Get 5] may be served, and
+    then with exactly (1 5 0): record [ex_rec] (slot 3) resolves to block 0 and bytes 0..19 of its
+    region are all owned by upload 0 of life 0 although life 1 wrote into the same block. ---- *)
+Definition ex_ver (j k : nat) : Z := Z.of_nat j.
+Definition ex_blk : binfo :=
+  match nth_error (blocks (fst (restart (geom ex_g) (m_state ex_m2)))) 0 with Some b => b | None => mkBinfo (0, 0)%Z 0%Z 0%Z 0%Z 0 end.
+
+Lemma ex2_designates : R02Mon.designates [ex_lf1; ex_lf2] (0, 64)%Z ex_rec 0 0.
+Proof.
+  exists ex_lf1. eexists. split; [reflexivity|]. split; [vm_compute; reflexivity|].
+  repeat (split; [vm_compute; reflexivity|]).
+  intros z Hz. change (r_off ex_rec) with 0%Z in Hz. change (r_size ex_rec) with 20%Z in Hz.
+  assert (Hc : (z = 0 \/ z = 1 \/ z = 2 \/ z = 3 \/ z = 4 \/ z = 5 \/ z = 6 \/ z = 7 \/ z = 8 \/ z = 9 \/
+                z = 10 \/ z = 11 \/ z = 12 \/ z = 13 \/ z = 14 \/ z = 15 \/ z = 16 \/ z = 17 \/ z = 18 \/ z = 19)%Z) by lia.
+  repeat (destruct Hc as [->|Hc]; [vm_compute; reflexivity|]). subst z. vm_compute. reflexivity.
+Qed.
+
+Example ex2_get_model_obs :
+  R02Mon.model_get_obs ex_g ex_ver [ex_lf1; ex_lf2] ex_m2 5 (L [A 0; L [A 1; A 5; A 0]])%Z.
+Proof.
+  change (L [A 0; L [A 1; A 5; A 0]])%Z with (L [A 0; L [A 1; A 5; A (ex_ver 0 0)]])%Z.
+  apply (R02Mon.mgo_served ex_g ex_ver [ex_lf1; ex_lf2] ex_m2 5%Z 3 ex_rec 0 ex_blk 0 0).
+  - exact ex2_old_record_resolves.
+  - reflexivity.
+  - vm_compute. reflexivity.
+  - change (b_loc ex_blk) with (0, 64)%Z. exact ex2_designates.
+Qed.
+(** … and the monitor accepts it for every op list in which that upload occurs *)
+Example ex2_get_model_obs_accepted :
+  get_clauses [L [L [A 1; A 6; A 1]]; L [L [A 1; A 5; A 0]]]%Z 5 (L [A 0; L [A 1; A 5; A 0]])%Z = [].
+Proof. vm_compute. reflexivity. Qed.
